@@ -492,21 +492,23 @@ def gen_struct_systems(rng, N):
     """Jacobian sparsity patterns x row permutations x guess classes (near / exactly at the root / some components exactly at
     the root) x element kind (f64, cplx, cplx with purely real data) x Jacobian variant"""
     cases = []
-    pats = ["diag", "lower", "upper", "tridiag", "full"]
-    perms = ["id", "swap01", "reverse", "cyclic", "swaplast", "random"]
+    # the full cross product pattern x (identity | permuted) x (finite differences | supplied Jacobian) x element class is walked
+    # in order (60 combinations: every one at least twice in a quick run); everything else is drawn
+    combos = [(p, pc, uj, ea) for p in ["diag", "lower", "upper", "tridiag", "full"] for pc in ("id", "perm") for uj in (False, True)
+              for ea in (('f64', None), ('cplx', None), ('cplx', 'real'))]
+    off = rng.below(len(combos))
     for t in range(N):
-        elt, axis = [('f64', None), ('f64', None), ('cplx', None), ('cplx', 'real')][t % 4]
-        pattern = pats[(t // 2) % 5]
-        which = perms[(t // 3 + t) % 6]
-        n = 2 + (t * 5 + t // 7) % 4                      # 2..5
-        if pattern in ("lower", "upper", "tridiag") and n < 3 and t % 2: n = 3
-        nonlin = (t % 5 != 0)
+        pattern, pc, use_jac, (elt, axis) = combos[(t + off) % len(combos)]
+        which = "id" if pc == "id" else ["swap01", "reverse", "cyclic", "swaplast", "random"][rng.below(5)]
+        n = rng.range(2, 5)
+        if pattern in ("lower", "upper", "tridiag") and n < 3 and rng.chance(1, 2): n = 3
+        nonlin = not rng.chance(1, 5)
         fns, r, jac = struct_system(rng, elt, n, pattern, pick_perm(rng, n, which), axis=axis, nonlin=nonlin)
         tol, delta = pick_tol(rng), pick_delta(rng)
         if axis == 'real': pert = lambda: complex(0.3 * (2 * rng.unit() - 1), 0.0)
         elif elt == 'cplx': pert = lambda: 0.3 * cval(rng, -1, 1)
         else: pert = lambda: 0.3 * (2 * rng.unit() - 1)
-        gmode = ["near", "near", "near", "at-root", "partial"][(t // 4 + t // 20) % 5]
+        gmode = ["near", "near", "near", "at-root", "partial"][rng.below(5)]
         if gmode == "partial" and pattern != "diag": gmode = "near"
         if gmode == "at-root": guess = list(r)
         elif gmode == "partial":
@@ -518,7 +520,6 @@ def gen_struct_systems(rng, N):
         need = 9 if nonlin else 4
         iters = pick_iters(rng, need)
         if iters is not None and iters > 12 and n >= 4: iters = 12
-        use_jac = (t % 3 == 1)
         fam = "struct-sys%s-%s%s-%s-%s-%s" % ("jac" if use_jac else "", elt, "-real" if axis else "", pattern, "perm" if which != "id" else "id", gmode)
         cases.append(mk_sys(elt, tol, delta, iters, guess, fns, {"root0": r, "expect_ok": True, "need": need}, fam,
                             jac=(n, n, jac) if use_jac else None))
@@ -898,12 +899,31 @@ def oracle(case, items):
             if nrm(dx) < 1e6 * (1 + nrm(c)) and nrm(vsub(x1, ref)) > rel * scale + 1e-300:
                 return ("%s(%r) is not the Newton update %r of the last iterate %r: the value returned is not the last iterate"
                         % ("Ok" if ok1 else "Err", x1, ref, c))
+    # ---- specB: in the known-root families EVERY recorded iterate is the Newton update of its predecessor (the clause above looks at
+    # the last pass only, where the step is tiny and a wrong step solver hides inside the tolerance)
+    if meta.get("expect_ok") and (meta.get("roots") or meta.get("root0") is not None):
+        for k in range(K - 1):
+            c, nxt = seq[k], seq[k + 1]
+            if c is None or nxt is None or not allfinite(c) or not allfinite(nxt): continue
+            try:
+                ref, dx, ampl = newton_step(c)
+            except (OverflowError, ValueError, ZeroDivisionError):
+                continue
+            if ref is None or not allfinite(ref): continue
+            scale = nrm(c) + nrm(dx)
+            rel = (1e-9 + 1e-14 * ampl) if kind == "scalar" else 1e-6
+            if nrm(dx) < 1e6 * (1 + nrm(c)) and nrm(vsub(nxt, ref)) > rel * scale + 1e-300:
+                return ("pass %d of %d: the iterate %r is not the Newton update %r of its predecessor %r"
+                        % (k + 1, K, nxt, ref, c))
     # ---- success means a root
     if ok1:
         roots = meta.get("roots")
         if roots is None and kind == "scalar" and meta.get("expect_ok") and not meta.get("builtin"):
             roots = [r[0] for r in [refine_root([meta["fn"]], [x1], elt)]]
             roots = [complex(roots[0]) if elt == 'cplx' else float(roots[0])]
+        # specB: a point that is not finite is not a root (NaN compares false with every bound below; the refinement cannot start there)
+        if (roots or meta.get("root0") is not None) and not allfinite(x1):
+            return "Ok(%r): the point reported as a root of a function with known simple roots is not finite" % (x1,)
         if kind == "scalar" and roots:
             d = min(abs(x1 - r) for r in roots)
             bound = 100 * tol + 16 * ulp(abs(x1))
